@@ -710,7 +710,7 @@ pub fn run(c: &mut Ctx) {
         if c.out_of_time() {
             break;
         }
-        ctx::slot_write(idx, "C15 script", &[]);
+        ctx::slot_write(idx, &format!("{}|case", fam), &[]);
         one_case(c, fam, idx);
     }
     if !c.replaying() {
